@@ -64,12 +64,12 @@ prop('C03', level='proof', modules=['Polyseed.Props.C03'], suites=['pack'],
      note=PROOF_NOTE + 'Modelled, not verified: gf.c, polyseed_encode. Spec (Model/Spec.lean) is written from README.md; "an independent implementation" is represented by Spec plus vlib/spec.py.',
      technique='Lean 4 proof (symbolic unrolling of the packing loops + omega; spec written from the README) + correspondence on packing and encode',
      assumptions=['canonical seed (proved invariant, C13)'])
-prop('C13', level='proof', modules=['Polyseed.Props.C13'], suites=[],
+prop('C13', level='proof', modules=['Polyseed.Props.C13', 'Polyseed.Props.C13Refine'], suites=[],
      api=dict(cone={'*': 'result', 'keygen': 'result+ev:kdf', 'crypt': 'result+ev:kdf'}, sessions=10),
-     text='Theorems inv_step / inv_run / inv_run_init (every seed the library holds after ANY finite history is canonical - 150 bits, zero padding, consistent check value - for all oracles, junk and allocation failures; induction over the history), concr_abs / canon_determined (a canonical seed IS its abstract value (secret, birthday, features): equal abstract values give identical seeds), store_abs / encode_abs / keygen_abs / queries_abs (every observable output is a function of the abstract value written with Spec.* only), frame (a call never changes a seed other than its argument), plus createData_canon, polyToData_canon, decodeFinish_inv. With C06.load_store and C01.decodeExplicit_encode this gives "storing, loading, encoding and decoding a handed-out seed always succeed". S-api: random histories over up to 16 live seeds with outputs fed back exact and mutated; every op is compared with the model; every seed handed out is dumped and checked canonical.',
-     note=PROOF_NOTE + 'The abstract model is realised as the canonical-representation theorem plus per-observation equations rather than a second transition system. Calls with dead handles are undefined behaviour in C and outside the model (badHandle).',
+     text='REFINEMENT (Props/C13Refine.lean against Model/Abstract.lean): the abstract model is written out - a seed is (secret, birthday, features), the state is the injected table, the enabled user mask and the live handles, every output is given by the published format (Spec.*) and plain arithmetic - and run_refines proves that for EVERY finite history from any reachable state, every argument and every answer of the random source, clock, allocator, KDF and normalisers the concrete model returns exactly the abstract outputs, consumes the same oracle answers and ends in a state whose abstraction is the abstract state (step_refines per operation; ingredients: ofWords_eq, load_refines with ofImage_store, store_eq, keygenSalt_eq, toAbs_createData, secretNat_crypt: XOR of the byte strings is XOR of the 150-bit numbers, supported_eq by kernel evaluation over 8x32). Theorems inv_step / inv_run / inv_run_init (every seed the library holds after ANY finite history is canonical - 150 bits, zero padding, consistent check value - for all oracles, junk and allocation failures; induction over the history), concr_abs / canon_determined (a canonical seed IS its abstract value (secret, birthday, features): equal abstract values give identical seeds), store_abs / encode_abs / keygen_abs / queries_abs (every observable output is a function of the abstract value written with Spec.* only), frame (a call never changes a seed other than its argument), plus createData_canon, polyToData_canon, decodeFinish_inv. With C06.load_store and C01.decodeExplicit_encode this gives "storing, loading, encoding and decoding a handed-out seed always succeed". S-api: random histories over up to 16 live seeds with outputs fed back exact and mutated; every op is compared with the model; every seed handed out is dumped and checked canonical.',
+     note=PROOF_NOTE + 'The abstract model shares tokenising and word lookup with the concrete model (the subject of C07-C09); everything about seed data is abstract. Calls with dead handles are undefined behaviour in C and outside both models (badHandle).',
      technique='Lean 4 proof (invariant by induction over histories + canonical-representation refinement + frame) + API-history correspondence',
-     assumptions=['oracles return bytes (OraclesOK); coin < 2048; load buffers are 32 bytes; handles passed are live'])
+     assumptions=['oracles return bytes (OraclesOK); the KDF returns as many bytes as requested (KdfLen); coin < 2048; load buffers are 32 bytes; handles passed are live'])
 prop('C15', level='proof', modules=['Polyseed.Props.C15'], suites=[],
      api=dict(cone={'*': 'ledger+status'}, weights=dict(faults=6, unsupported=3, storage=2, roundtrip=2, badtokens=1, garbage=1), sessions=5), extra='extra_faults',
      text='Theorems step_ledger / run_ledger / run_ledger_init (for EVERY history, oracle and schedule of allocation failures the ledger computed from the event trace is defined - no double free, no foreign free, no live block handed out twice - and equals the set of seeds the library holds: nothing leaks), failed_call_balanced (a failing call returns every block it took), alloc_failure_create/load/decode (memory status, no seed, no further block access), free_events (freeing NULL does nothing; a seed is wiped through the injected wipe then freed exactly once), junk independence. Fault enumeration on the real code: a history reaching every outcome class is run for every subset of failing allocation requests, diffed against the model, with the harness allocator checking the ledger itself (guard pages, unmapped-on-free, zeroed-at-free).',
